@@ -668,7 +668,10 @@ func (r *FileRestorer) applyDecorations(node ast.Node, name string, decorations 
 		// for newline decorations and also line-comments, add a newline
 		if isLineComment || isNewline {
 			lineOffset := int(r.cursor) - r.base // remember lines are relative to the file base
-			r.lines = append(r.lines, lineOffset)
+			if lineOffset > r.lines[len(r.lines)-1] {
+				// a newline decoration at the very start of the file would repeat the first line
+				r.lines = append(r.lines, lineOffset)
+			}
 			r.cursor++
 
 			r.cursorAtNewLine = r.cursor
